@@ -100,6 +100,10 @@ BASE_DOCS = [
     '<svg id="root">%s<g id="ga"><g id="gb"><g id="t" transform="translate(1)"><rect id="c1" width="2" height="2"/></g><use id="u" href="#c1" x="5"/></g></g>%s</svg>' % (R1, R2),
     '<svg id="root"%s><defs id="d"><rect id="p" width="2" height="2"/></defs>%s<use id="t" xlink:href="#p" href="#p" x="4"/><use id="t2" xlink:href="#t" y="4"/>%s</svg>' % (XL, R1, R2),
     '<svg id="root"><defs id="d"><rect id="p" width="2" height="2"/><use id="ua" href="#p"/><use id="ub" href="#ua"/><use id="uc" href="#ub"/></defs>%s<use id="t" href="#uc"/>%s</svg>' % (R1, R2),
+    # witnesses after the faulted element whose geometry depends on the viewport (percentages): a fault that disables
+    # a nested viewport must not leave that viewport behind for its later siblings
+    '<svg id="root" width="200" height="100">%s<svg id="t" x="5" y="5" width="20" height="50" viewBox="0 0 10 10"><rect id="c1" width="5" height="5"/></svg><rect id="w3" x="10%%" y="10%%" width="50%%" height="50%%" stroke="red" stroke-width="1%%"/><circle id="w4" cx="50%%" cy="50%%" r="5%%"/>%s</svg>' % (R1, R2),
+    '<svg id="root" width="200" height="100">%s<g id="ga" transform="translate(3,4)"><svg id="t" width="20" height="50"><rect id="c1" width="5" height="5"/></svg><ellipse id="w3" cx="25%%" cy="25%%" rx="10%%" ry="20%%"/><use id="w4" href="#w1" x="25%%" y="10%%"/></g>%s</svg>' % (R1, R2),
 ]
 
 # ------------------------------------------------------------------ fault pools: attribute -> [(malformed text, fault kind)]
